@@ -164,6 +164,8 @@ func DeleteEntriesFromRepo(repo string, stores context2.Stores, toDelete []strin
 
 		// 2. scan file lists for that bundle
 		indexFiles := bundle.BundleEntriesFileCount
+		kept := make([]model.BundleEntry, 0, defaultBundleEntriesPerFile)
+		firstModified := indexFiles
 		for i := uint64(0); i < indexFiles; i++ {
 			archivePathToBundleFileList := model.GetArchivePathToBundleFileList(repo, bundleID, i)
 			rdr, e := store.Get(ctx, archivePathToBundleFileList)
@@ -181,9 +183,6 @@ func DeleteEntriesFromRepo(repo string, stores context2.Stores, toDelete []strin
 			}
 
 			// 3. scan entries in file list
-			newBundleEntry := model.BundleEntries{
-				BundleEntries: make([]model.BundleEntry, 0, len(bundleEntries.BundleEntries)),
-			}
 			listModified := false
 			for _, entry := range bundleEntries.BundleEntries {
 				entryDeleted := false
@@ -195,20 +194,59 @@ func DeleteEntriesFromRepo(repo string, stores context2.Stores, toDelete []strin
 					}
 				}
 				if !entryDeleted {
-					newBundleEntry.BundleEntries = append(newBundleEntry.BundleEntries, entry)
+					kept = append(kept, entry)
 				}
 			}
-			if listModified {
-				// 4. overwrite updated file list
-				buffer, erm := yaml.Marshal(newBundleEntry)
-				if erm != nil {
-					return fmt.Errorf("cannot marshal file list index %d for bundle %s in repo %s: %v", i, bundleID, repo, erm)
-				}
-				// TODO(fred): make sure overwrite is done without trailing thrash
-				erp := store.Put(ctx, archivePathToBundleFileList, bytes.NewReader(buffer), storage.OverWrite)
-				if erp != nil {
-					return fmt.Errorf("cannot overwrite file list index %d for bundle %s in repo %s: %v", i, bundleID, repo, erp)
-				}
+			// a file list other than the last one must remain full: whenever one is not, all the lists that follow
+			// are laid out again. This also repairs bundles left with a short list by a previous version.
+			if !listModified && i+1 < indexFiles && len(bundleEntries.BundleEntries) != defaultBundleEntriesPerFile {
+				listModified = true
+			}
+			if listModified && i < firstModified {
+				firstModified = i
+			}
+		}
+		if firstModified == indexFiles {
+			continue
+		}
+
+		// 4. overwrite updated file lists, from the first modified one
+		newIndexFiles := (uint64(len(kept)) + defaultBundleEntriesPerFile - 1) / defaultBundleEntriesPerFile
+		if newIndexFiles == 0 {
+			newIndexFiles = 1
+		}
+		for i := firstModified; i < newIndexFiles; i++ {
+			first := i * defaultBundleEntriesPerFile
+			next := first + defaultBundleEntriesPerFile
+			if next > uint64(len(kept)) {
+				next = uint64(len(kept))
+			}
+			buffer, erm := yaml.Marshal(model.BundleEntries{BundleEntries: kept[first:next]})
+			if erm != nil {
+				return fmt.Errorf("cannot marshal file list index %d for bundle %s in repo %s: %v", i, bundleID, repo, erm)
+			}
+			// TODO(fred): make sure overwrite is done without trailing thrash
+			erp := store.Put(ctx, model.GetArchivePathToBundleFileList(repo, bundleID, i), bytes.NewReader(buffer), storage.OverWrite)
+			if erp != nil {
+				return fmt.Errorf("cannot overwrite file list index %d for bundle %s in repo %s: %v", i, bundleID, repo, erp)
+			}
+		}
+		if newIndexFiles == indexFiles {
+			continue
+		}
+
+		// 5. fewer file lists than before: update the bundle, then drop the file lists no longer needed
+		bundle.BundleEntriesFileCount = newIndexFiles
+		buffer, erm := yaml.Marshal(bundle)
+		if erm != nil {
+			return fmt.Errorf("cannot marshal metadata for bundle %s in repo %s: %v", bundleID, repo, erm)
+		}
+		if erp := store.Put(ctx, pth, bytes.NewReader(buffer), storage.OverWrite); erp != nil {
+			return fmt.Errorf("cannot overwrite metadata for bundle %s in repo %s: %v", bundleID, repo, erp)
+		}
+		for i := newIndexFiles; i < indexFiles; i++ {
+			if erd := store.Delete(ctx, model.GetArchivePathToBundleFileList(repo, bundleID, i)); erd != nil {
+				return fmt.Errorf("cannot delete file list index %d for bundle %s in repo %s: %v", i, bundleID, repo, erd)
 			}
 		}
 	}
